@@ -107,6 +107,32 @@ pub fn in_zone<R>(z: &Zone, f: impl FnOnce(i32) -> R) -> R {
     f(o)
 }
 
+/// Runs `f` with the thread's system zone redirected to `z` and the clock pinned at an arbitrary instant (the ends of the
+/// range, the era boundary, 2^k units from the epochs …): the ambient state every clock- or zone-reading code path
+/// depends on, under the caller's control.  `None` when the instant cannot be built.
+pub fn in_ambient<R>(z: &Zone, now: i128, f: impl FnOnce() -> R) -> Option<R> {
+    let (dt, _) = sane_value(now, 0)?;
+    let _g = ZoneGuard;
+    astrolabe::verif::set_localtime_path(Some(z.path.clone()));
+    astrolabe::verif::pin_now(Some(dt));
+    Some(f())
+}
+
+/// A clock reading for `in_ambient`: the very ends of the range (the last / first seconds, within an offset of the
+/// end), around 0001-01-01, around the unix epoch, year 9999/10000, 2^k units from the epochs, today, anywhere.
+pub fn gen_clock(rng: &mut Rng) -> (i128, &'static str) {
+    match rng.below(8) {
+        0 => (MAX_INSTANT - rng.range_i128(0, 2 * D), "clock/upper-range-end"),
+        1 => (MIN_INSTANT + rng.range_i128(0, 2 * D), "clock/lower-range-end"),
+        2 => (rng.range_i128(-2 * D, 2 * D), "clock/around-0001-01-01"),
+        3 => (UNIX_EPOCH_INSTANT + rng.range_i128(-2 * D, 2 * D), "clock/around-1970"),
+        4 => (crate::model::calendar::days_from_civil(10_000, 1, 1) as i128 * D + rng.range_i128(-2 * D, 2 * D), "clock/around-year-10000"),
+        5 => (crate::model::magic::gen_instant_at(rng, MIN_INSTANT + D, MAX_INSTANT - D), "clock/2^k-units-from-an-epoch"),
+        6 => (UNIX_EPOCH_INSTANT + 1_760_000_000i128 * NS + rng.range_i128(-400 * D, 400 * D), "clock/today"),
+        _ => (rng.range_i128(MIN_INSTANT, MAX_INSTANT), "clock/anywhere"),
+    }
+}
+
 /// Everything a DateTime shows, with the offset normalised to the seconds it resolves to.
 fn summary(d: &DateTime) -> String {
     format!(
